@@ -12,15 +12,22 @@
       extension record must be the FIRST prefix bound to its URL (two
       extensions with one URL: the element is attributed to the first);
     - an extension record must use a registered prefix;
-    - the text of every float (oracle: Rust's Display) is non-empty and free of
-      markup characters and blanks that XML would escape or normalise.
+    - the text of every float (oracle: Rust's Display) is non-empty printable
+      ASCII without markup characters.
+
+    [meta_xml_ok] collects what makes the abstract tree a well-formed XML tree
+    ([wf_doc] of Spec/XmlRender.v): strings of XML characters without carriage
+    return, extension prefixes that are XML names and pairwise distinct,
+    extension URLs of XML characters other than the two reserved ones,
+    extension records with a registered prefix and an XML name.
     No proofs here. *)
 From E57 Require Import Base.Prelude Model.Meta Model.MetaFile Model.XmlTree Model.XmlGen Spec.XmlRender Spec.MetaTree.
 Local Open Scope N_scope.
 
-(** a byte that is written as itself both in character data and in attribute values *)
+(** a printable ASCII byte that is written as itself both in character data and in
+    attribute values (no markup character, no blank other than the space) *)
 Definition plain_byte (b : N) : bool :=
-  negb ((b =? 38) || (b =? 60) || (b =? 62) || (b =? 34) || (b =? 9) || (b =? 10) || (b =? 13)).
+  (32 <=? b) && (b <? 127) && negb ((b =? 38) || (b =? 60) || (b =? 62) || (b =? 34)).
 Definition plain_text (t : list N) : bool :=
   match t with [] => false | _ => forallb plain_byte t end.
 
@@ -101,3 +108,37 @@ Definition writer_meta_ok (m : file_meta) : bool :=
   opt_ok date_time_ok (rt_creation (fm_root m)) &&
   forallb (pointcloud_ok (fm_extensions m)) (fm_pointclouds m) &&
   forallb image_ok (fm_images m).
+
+(** * well-formedness of the tree *)
+Definition string_ok (s : xstring) : bool := text_ok s.
+Definition opt_string_ok (o : option xstring) : bool := opt_ok string_ok o.
+
+Definition ext_decl (e : extension) : xnsdecl := mkXNs (Some (e_namespace e)) (e_url e).
+Definition extensions_ok (exts : list extension) : bool :=
+  forallb (fun e => decl_ok (ext_decl e)) exts && distinct_prefixes (scope_of exts) && (len exts <? 65535).
+
+Definition record_xml_ok (exts : list extension) (r : record) : bool :=
+  match r_name r with
+  | Unknown ns name => ncname name && match ext_uri exts ns with Some _ => true | None => false end
+  | _ => true
+  end.
+
+Definition pointcloud_xml_ok (exts : list extension) (pc : pointcloud) : bool :=
+  opt_string_ok (pc_guid pc) && opt_ok (forallb string_ok) (pc_original_guids pc) &&
+  opt_string_ok (pc_name pc) && opt_string_ok (pc_description pc) &&
+  opt_string_ok (pc_sensor_vendor pc) && opt_string_ok (pc_sensor_model pc) && opt_string_ok (pc_sensor_serial pc) &&
+  opt_string_ok (pc_sensor_hw_version pc) && opt_string_ok (pc_sensor_sw_version pc) && opt_string_ok (pc_sensor_fw_version pc) &&
+  forallb (record_xml_ok exts) (pc_prototype pc).
+
+Definition image_xml_ok (i : image) : bool :=
+  opt_string_ok (im_guid i) && opt_string_ok (im_pointcloud_guid i) && opt_string_ok (im_name i) &&
+  opt_string_ok (im_description i) && opt_string_ok (im_sensor_vendor i) && opt_string_ok (im_sensor_model i) &&
+  opt_string_ok (im_sensor_serial i).
+
+Definition meta_xml_ok (m : file_meta) : bool :=
+  let r := fm_root m in
+  string_ok (rt_format r) && string_ok (rt_guid r) && opt_string_ok (rt_library_version r) &&
+  opt_string_ok (rt_coordinate_metadata r) &&
+  extensions_ok (fm_extensions m) &&
+  forallb (pointcloud_xml_ok (fm_extensions m)) (fm_pointclouds m) &&
+  forallb image_xml_ok (fm_images m).
